@@ -209,11 +209,13 @@ func (c *Ctx) Finish(verif string, start time.Time, seed int, explanation string
 
 	replayPath := filepath.Join(verif, "evidence", "replay", c.Property+".json")
 	exit := 0
-	if len(viol) > 0 {
-		exit = 1
-	}
+	// violations take precedence over checker errors: a change that both breaks a rule and
+	// removes an anchor must still be reported as a violation
 	if len(c.Errors) > 0 {
 		exit = 2
+	}
+	if len(viol) > 0 {
+		exit = 1
 	}
 
 	cov := map[string]any{
